@@ -45,11 +45,12 @@ impl<S: ShortGroupSignatureScheme> ProofVerifier for EqualityVerifier<'_, '_, '_
                         .ok_or(Error::InvalidPresentationData(format!("no statement with id '{}' is found in the presentation schema: equality_verifier: {:?}", s.id, self)))?
                     {
                         Statements::Signature(sig_st) => {
-                            let disclosed_messages: Vec<(usize, Scalar)> = s
+                            let mut disclosed_messages: Vec<(usize, Scalar)> = s
                                 .disclosed_messages
                                 .iter()
                                 .map(|(idx, scalar)| (*idx, *scalar))
                                 .collect();
+                            disclosed_messages.sort_by_key(|(idx, _)| *idx);
                             let hidden_messages = s
                                 .pok
                                 .get_hidden_message_proofs(
